@@ -609,8 +609,34 @@ def gen_c12(rng, n):
         A = b.emit_any(pick_spec(rng, cl, small_p=0.7), rng)
         B = b.emit_any(pick_spec(rng, cl, small_p=0.7), rng)
         C = b.emit_any(pick_spec(rng, cl, small_p=0.7), rng)
-        kind = rng.choice(["result", "result", "identity"])
-        if kind == "result":
+        kind = rng.choice(["result", "result", "identity", "fromvalues"])
+        if kind == "fromvalues":
+            # a directly constructed function given with redundant rows must come out minimal too
+            base = pick_spec(rng, cl, small_p=0.5, stepfree_p=0.0)
+            while not base.rows:
+                base = pick_spec(rng, cl, small_p=0.5, stepfree_p=0.0)
+            rows = []
+            prev = base.init
+            for p, v in base.rows:
+                rows.append((p, v))
+                if rng.random() < 0.5:
+                    rows.append((p + Fraction(1, 2), v))
+            if rng.random() < 0.4 and rows:
+                rows = [(rows[0][0] - 1, base.init)] + rows
+            h = b.reg("h")
+            b.add(f"fromvalues {h} {cl} {vs(base.init)} " + " ".join(f"{fs(p)}:{vs(v)}" for p, v in rows), focus=True)
+            b.add(f"rawframe {h}", focus=True)
+            b.add(f"nsteps {h}", focus=True)
+            g = b.emit(base, "fromvalues", rng)
+            b.add(f"ident {h} {g}", focus=True)
+            b.add(f"ident {g} {h}", focus=True)
+            b.add(f"touch {h} deltas")
+            b.add(f"views {h}", focus=True)
+            k = b.reg("k")
+            b.add(f"bin {k} add {h} #1", focus=True)
+            b.add(f"rawframe {k}", focus=True)
+            b.tags.update(kind="fromvalues")
+        elif kind == "result":
             h = b.reg("h")
             t = rng.random()
             if t < 0.5:
